@@ -35,14 +35,6 @@ RECURSIVE FullLenUpTo(_, _, _)
 FullLenUpTo(segs, c, j) == IF j = 0 THEN 0 ELSE FullLenUpTo(segs, c, j - 1) + FullVals(segs, c, j)
 
 (* ----------------------------- reader model ----------------------------- *)
-\* contiguous truncated chunk: leading objects whole while the remainder exceeds their size, the first short one
-\* gets the whole values that fit, the rest nothing
-RECURSIVE ContigLens(_, _, _)
-ContigLens(objs, i, rem) ==
-  IF i > Len(objs) THEN <<>>
-  ELSE IF rem > ObjBytes(objs[i]) THEN <<objs[i].n>> \o ContigLens(objs, i + 1, rem - ObjBytes(objs[i]))
-  ELSE <<rem \div objs[i].w>> \o [m \in 1..(Len(objs) - i) |-> 0]
-
 \* _compute_final_chunk_lengths for a non-DAQmx segment: values per object in the partial chunk of `rem' bytes
 FinalLens(seg, rem, incomplete) ==
   LET objs == seg.objs  cb == ChunkBytes(objs) IN
